@@ -243,7 +243,7 @@ class PurityMachine(RuleBasedStateMachine):
         t %= len(self.texts)
         self.hist.append(["recompile", t, d, c])
         p = self._path(t)
-        p2 = self.env.compile(self.texts[t])
+        p2 = self.env.compile("".join(list(self.texts[t])))  # an equal text, but a different str object
         _MS.ev()
         if not (p == p2 and p2 == p):
             self._fail("recompile:not-equal", "compiling %r twice gives unequal queries" % self.texts[t])
@@ -340,6 +340,37 @@ def t_differential(seed, n):
                     stats.fail("document-modified", {"docs": [s_[0] for s_ in snaps], "ctxs": ctxs, "texts": [text], "history": [["evaluate", 0, i, 0]]},
                                "evaluating %r changed document %d" % (text, i))
                     return
+        # documents given as JSON text: every evaluation sees a freshly parsed value, whatever the caller did to earlier results
+        if rng.random() < 0.35:
+            import json as _json
+            for i, sd in enumerate(snaps):
+                if not isinstance(sd[0], (dict, list)):
+                    continue
+                jt = _json.dumps(sd[0])
+                want = model_for(text, sd[0], ctxs[0])
+                for rep in range(2):
+                    stats.ev()
+                    try:
+                        ms = list(p.finditer("".join(list(jt)), filter_context=ctxs[0]))
+                        got = ("ok", [(tuple(m.parts), canon(m.obj)) for m in ms])
+                    except Exception as e:  # noqa: BLE001
+                        ms, got = [], ("err", type(e).__name__)
+                    if got != want:
+                        stats.fail("result-differs:json-text:%s" % ("first-use" if rep == 0 else "after-caller-mutated-earlier-result"),
+                                   {"docs": [s_[0] for s_ in snaps], "ctxs": ctxs, "texts": [text], "history": [["text-twice", i]]},
+                                   "%r on the JSON text of document %d, evaluation %d: %s vs %s" % (text, i, rep + 1, short(got, 160), short(want, 160)))
+                        return
+                    for m in ms:
+                        if isinstance(m.obj, list):
+                            m.obj.append("__mutated__")
+                        elif isinstance(m.obj, dict):
+                            m.obj["__mutated__"] = 1
+                        r_ = m.root
+                        if isinstance(r_, dict):
+                            r_["__mutated_root__"] = 1
+                        elif isinstance(r_, list):
+                            r_.append("__mutated_root__")
+            stats.cls("json-text-twice")
         if has_cache_and_volatile(p):
             stats.cls("cacheable")
             stats.nt("diff", text, canon(docs))
@@ -511,7 +542,7 @@ def replay(case):
             t, d, c = step[1], step[2], step[3]
             p = compiled.setdefault(t, env.compile(texts[t]))
             if op == "recompile":
-                p2 = env.compile(texts[t])
+                p2 = env.compile("".join(list(texts[t])))
                 if not (p == p2):
                     stats.fail("recompile:not-equal", case, "unequal")
                 elif hash(p) != hash(p2):
@@ -551,6 +582,25 @@ def replay(case):
                     break
         elif op == "threads":
             return t_threads(0, 30)
+        elif op == "text-twice":
+            import json as _json
+            p = env.compile(texts[0])
+            i = step[1]
+            jt = _json.dumps(case["docs"][i])
+            want = model_for(texts[0], case["docs"][i], case["ctxs"][0])
+            for rep in range(2):
+                try:
+                    ms = list(p.finditer("".join(list(jt)), filter_context=ctxs[0]))
+                    got = ("ok", [norm(m) for m in ms])
+                except Exception as e:  # noqa: BLE001
+                    ms, got = [], ("err", type(e).__name__)
+                if got != want:
+                    stats.fail("result-differs:json-text:%s" % ("first-use" if rep == 0 else "after-caller-mutated-earlier-result"), case, "%s vs %s" % (short(got, 120), short(want, 120)))
+                for m in ms:
+                    if isinstance(m.root, dict):
+                        m.root["__mutated_root__"] = 1
+                    elif isinstance(m.root, list):
+                        m.root.append("__mutated_root__")
         elif op == "abandon":
             p = env.compile(texts[0])
             for r in range(step[1]):
